@@ -106,14 +106,14 @@ fn main() {
                         }
                         let s = runner::run_seed(seed, scn.name(), i);
                         let out = runner::run_one(scn.clone(), tier, s, runner::TapeInput::Gen(s), false);
-                        results.lock().unwrap().push((i, out.fingerprint, out.events, out.violation.map(|v| v.class()), out.harness_error));
+                        results.lock().unwrap().push((i, out.fingerprint, out.events, out.violation.map(|v| v.class()), out.harness_error, s));
                     });
                 }
             });
             let mut r = results.into_inner().unwrap();
             r.sort();
-            for (i, fp, ev, v, he) in r {
-                println!("{} {:016x} {} {:?} {:?}", i, fp, ev, v, he);
+            for (i, fp, ev, v, he, s) in r {
+                println!("{} {:016x} {} {:?} {:?} seed={}", i, fp, ev, v, he, s);
             }
         }
         _ => usage(),
